@@ -179,6 +179,17 @@ impl Invlpgb {
         })
     }
 
+    /// Verification hook: construct the capability object from given limits instead of CPUID
+    /// (the real constructor asserts CPL 0).
+    #[cfg(feature = "verif_hooks")]
+    pub fn verif_new(invlpgb_count_max: u16, tlb_flush_nested: bool, nasid: u32) -> Self {
+        Self {
+            tlb_flush_nested,
+            invlpgb_count_max,
+            nasid,
+        }
+    }
+
     /// Returns the maximum count of pages to be flushed supported by the processor.
     #[inline]
     pub fn invlpgb_count_max(&self) -> u16 {
